@@ -49,10 +49,11 @@ theorem sameTs_trans {a b c : TypeSystem} (h1 : SameTs a b) (h2 : SameTs b c) : 
 
 /-- the embedded type system of a FULL document: it can be built, it is the result of a history, and it declares the
     same as the original -/
-theorem loadEmbedded_same {o : TypeSystem} (ho : Hist o) (ho2 : Hist2 o) (hw : Writable Gen.consts o) :
-    ∃ emb, loadEmbeddedTs Gen.consts ((fullRecs Gen.consts o).map (renderTypeDecl Gen.consts)) = .ok emb ∧
+theorem loadEmbedded_same {o : TypeSystem} (ho : Hist o) (ho2 : Hist2 o) (hw : Writable Gen.consts o)
+    (hpc : NoPercentNames o) :
+    ∃ emb, loadEmbeddedTs Gen.consts ((fullRecs Gen.consts o).map (renderTypeDecl0 Gen.consts)) = .ok emb ∧
       Hist emb ∧ SameTs o emb := by
-  have hrank : ∀ jt ∈ (fullRecs Gen.consts o).map (renderTypeDecl Gen.consts), jt.super ≠ jt.name →
+  have hrank : ∀ jt ∈ (fullRecs Gen.consts o).map (renderTypeDecl0 Gen.consts), jt.super ≠ jt.name →
       (o.types.map (·.name)).idxOf jt.super < (o.types.map (·.name)).idxOf jt.name := by
     intro jt hjt _
     obtain ⟨t, s, hto, _, _, hts, hjs, _, _⟩ := types_facts ho hw jt hjt
@@ -75,7 +76,7 @@ theorem loadEmbedded_same {o : TypeSystem} (ho : Hist o) (ho2 : Hist2 o) (hw : W
       · rw [hd]; exact hi1.grow.reg _ hdocreg
       · have hm : t ∈ fullRecs Gen.consts o :=
           (mem_fullRecs _ _ _).mpr ⟨find?_mem ht, by rw [find?_name ht]; exact hp, by rw [find?_name ht]; exact hd⟩
-        have := hreg1 (renderTypeDecl Gen.consts t) (List.mem_map.mpr ⟨t, hm, rfl⟩)
+        have := hreg1 (renderTypeDecl0 Gen.consts t) (List.mem_map.mpr ⟨t, hm, rfl⟩)
         rw [← find?_name ht]
         exact this
   obtain ⟨emb, hfold2, hi2, _, hcov⟩ := featsOuter ho ho2 hw (fullRecs Gen.consts o) ts1 (fun _ h => h) hi1 hregle
@@ -85,7 +86,8 @@ theorem loadEmbedded_same {o : TypeSystem} (ho : Hist o) (ho2 : Hist2 o) (hw : W
     obtain ⟨s, hs, hnf⟩ := ho.nofinal to (find?_mem hto) (by rw [find?_name hto]; exact hp)
     exact ⟨s, by rw [← hr.super]; exact hs, hnf⟩
   refine ⟨emb, ?_, ⟨hi2.cons, hi2.feat, hi2.grow, hnofinal⟩, ?_⟩
-  · rw [loadEmbeddedTs_eq _ _ (types_no_dockey hw)]
+  · rw [loadEmbeddedTs_eq _ _ (types_no_dockey hw)
+      (renderTypeDecl0_noPct _ _ (fun t ht => hpc t ((mem_fullRecs _ _ _).mp ht).1))]
     simp only [bind, Except.bind, htop, hfold1]
     exact hfold2
   · apply same_of o emb ho hi2.cons hi2.feat hi2.sub hi2.grow
@@ -102,20 +104,25 @@ theorem loadEmbedded_same {o : TypeSystem} (ho : Hist o) (ho2 : Hist2 o) (hw : W
       rw [h2, ← h1]; exact hf
     · exact hcov t ((mem_fullRecs _ _ _).mpr ⟨ht, hp, hd⟩)
 
-/-- **the embedded FULL type system reproduces the original**, for writable type systems -/
+/-- **the embedded FULL type system reproduces the original**, for writable type systems without feature names that
+    start with `%` (such a feature is lost, replaces the supertype / the description, or makes the writer raise) -/
 theorem json_full_ts_same_aux (ops : List TsOp)
     (h : UserOnly Gen.consts ops ∧ ∀ op ∈ ops, match op with
       | .createFeature dom _ _ _ _ _ => dom ≠ DOCUMENT_ANNOTATION
       | .createType _ _ _ => True)
     (hw : Writable Gen.consts (ops.foldl (applyOp Gen.consts) Gen.builtinTS))
+    (hpc : NoPercentNames (ops.foldl (applyOp Gen.consts) Gen.builtinTS))
     (cass : List Cas) (ci : Nat) (hp : Heap) (doc : JDoc) (st : Traverse.St)
     (hsave : saveJson Gen.consts (ops.foldl (applyOp Gen.consts) Gen.builtinTS) cass ci hp .full = .ok (doc, st)) :
     ∃ ts', loadTs Gen.consts Gen.builtinTS true doc = .ok ts' ∧
       SameTs (ops.foldl (applyOp Gen.consts) Gen.builtinTS) ts' := by
   have ho := hist_history ops _ hist_builtin h.1
   have ho2 := hist2_history ops _ hist_builtin hist2_builtin h.1 h.2
-  have htypes := saveJson_full_types _ _ _ _ _ _ _ hsave
-  obtain ⟨emb, hload, hemb, hsame⟩ := loadEmbedded_same ho ho2 hw
+  obtain ⟨decls, hdecls, htypes⟩ := saveJson_full_types _ _ _ _ _ _ _ hsave
+  -- no feature is named `%NAME`: the writer does not raise, and it writes the plain declarations
+  rw [renderTypeDecls_noPct _ _ (fun t ht => hpc t ((mem_fullRecs _ _ _).mp ht).1)] at hdecls
+  cases hdecls
+  obtain ⟨emb, hload, hemb, hsame⟩ := loadEmbedded_same ho ho2 hw hpc
   obtain ⟨m, hm, hsame2⟩ := merge_same_of emb hemb [Gen.builtinTS, emb] (by simp) (by simp)
   refine ⟨m, ?_, sameTs_trans hsame hsame2⟩
   unfold loadTs
